@@ -73,13 +73,126 @@ def gen_case(rng):
             "kills": kills, "strategy": dict(rng.choice(ds.STRATEGIES), **{"p_jump": 0.0}), "sched_seed": rng.randrange(1 << 31)}
 
 
+REAL_SCENARIOS = ["selfkill_at_start", "selfkill_midway", "segv", "kill_on_unpickle_arg", "kill_on_pickle_result",
+                  "parent_kills_idle_worker", "two_victims"]
+N_REAL = {"quick": 0, "thorough": 28}
+
+
 def plan(tier, seed):
+    # level 2: real loky processes, faults placed exactly, OS interleaving NOT controlled (reported separately in the
+    # evidence; cross-validates the outcome classes of the simulated OS); thorough tier only
+    rng = random.Random(H(seed, PROP, "real"))
+    for i in range(N_REAL[tier] if not os.environ.get("VERIF_RUNS") else 0):
+        yield {"real": True, "scenario": REAL_SCENARIOS[i % len(REAL_SCENARIOS)], "managed": rng.random() < 0.5,
+               "n_jobs": rng.choice([2, 3]), "victim_index": rng.randrange(6), "n": 6}
     for i in range(hz_runs(N_RUNS, tier)):
         yield gen_case(random.Random(H(seed, PROP, i)))
 
 
+def run_real(case):
+    import signal, time, tempfile, shutil
+    from joblib import Parallel, delayed
+    from joblib.externals.loky.process_executor import BrokenProcessPool
+    from joblib.externals.loky import get_reusable_executor
+    from props import c10_real_tasks as rt
+    warnings.simplefilter("ignore")
+    tmp = tempfile.mkdtemp(prefix="c10r_", dir="/dev/shm")
+    os.environ["JOBLIB_TEMP_FOLDER"] = tmp
+    sc = case["scenario"]; n = case["n"]; v = case["victim_index"] % n
+    me = os.getpid()
+
+    class Hung(Exception):
+        pass
+
+    def on_alarm(*a):
+        raise Hung()
+    signal.signal(signal.SIGALRM, on_alarm)
+    outcomes = []
+    t0 = time.monotonic()
+    try:
+        p = Parallel(n_jobs=case["n_jobs"], backend="loky", batch_size=1)
+        if case["managed"]:
+            p.__enter__()
+
+        def call(tasks):
+            signal.alarm(120)
+            t = time.monotonic()
+            try:
+                r = p(tasks)
+                outcomes.append(("ok", r, time.monotonic() - t))
+            except BrokenProcessPool as e:
+                outcomes.append((type(e).__name__, None, time.monotonic() - t))
+            except Hung:
+                outcomes.append(("HANG", None, time.monotonic() - t))
+            except BaseException as e:  # noqa
+                outcomes.append(("OTHER:" + type(e).__name__, repr(e)[:200], time.monotonic() - t))
+            finally:
+                signal.alarm(0)
+        good = [delayed(rt.ok)(i) for i in range(n)]
+        call(list(good))                                   # warm-up call: must succeed
+        if sc == "parent_kills_idle_worker":
+            ex = get_reusable_executor(max_workers=case["n_jobs"], reuse=True) if False else None
+            import joblib.externals.loky.reusable_executor as rex
+            pids = list(getattr(rex._executor, "_processes", {}).keys()) if rex._executor is not None else []
+            if pids:
+                os.kill(pids[v % len(pids)], signal.SIGKILL)
+                time.sleep(0.3)
+            call(list(good))                               # may fail (at most this one) ...
+        else:
+            bad = list(good)
+            if sc == "selfkill_at_start":
+                bad[v] = delayed(rt.selfkill_at_start)(v)
+            elif sc == "selfkill_midway":
+                bad[v] = delayed(rt.selfkill_midway)(v)
+            elif sc == "segv":
+                bad[v] = delayed(rt.segv)(v)
+            elif sc == "kill_on_unpickle_arg":
+                bad[v] = delayed(rt.takes_arg)(v, rt.KillOnUnpickle())
+            elif sc == "kill_on_pickle_result":
+                bad[v] = delayed(rt.returns_killer)(v, me)
+            elif sc == "two_victims":
+                bad[v] = delayed(rt.selfkill_at_start)(v); bad[(v + 1) % n] = delayed(rt.selfkill_midway)((v + 1) % n)
+            call(bad)
+        call(list(good))                                   # ... and this one must succeed again
+        if case["managed"]:
+            p.__exit__(None, None, None)
+    finally:
+        try:
+            import joblib.externals.loky.reusable_executor as rex
+            if rex._executor is not None:
+                rex._executor.shutdown(wait=False, kill_workers=True)
+        except BaseException:  # noqa
+            pass
+        shutil.rmtree(tmp, ignore_errors=True)
+
+    def V(cls, detail, **sig):
+        sig["what"] = cls; sig["real"] = True; sig["scenario"] = sc
+        return {"class": cls, "detail": detail, "sig": sig}
+    want = [(i, b"x" * 10) for i in range(n)]
+    verdict = None
+    kinds = [o[0] for o in outcomes]
+    if "HANG" in kinds:
+        verdict = V("hang", "real processes, scenario %s: call %d did not return within 120 s; outcomes %s" % (sc, kinds.index("HANG"), kinds))
+    elif any(k.startswith("OTHER") for k in kinds):
+        verdict = V("unexpected_error", "real processes, scenario %s: %s" % (sc, [o[:2] for o in outcomes if o[0].startswith("OTHER")]))
+    elif kinds[0] != "ok" or kinds[-1] != "ok":
+        verdict = V("no_healing", "real processes, scenario %s: outcomes %s (first and last call must succeed)" % (sc, kinds))
+    elif any(o[0] == "ok" and o[1] != want for o in (outcomes[0], outcomes[-1])):
+        verdict = V("wrong_results", "real processes, scenario %s: %s" % (sc, [o[1] for o in outcomes if o[0] == "ok"][:2]))
+    elif sc != "parent_kills_idle_worker" and kinds[1] == "ok":
+        verdict = V("fault_not_reported", "real processes, scenario %s: the call containing the killed task returned %s" % (sc, str(outcomes[1][1])[:200]))
+    elif sum(1 for k in kinds if k != "ok") > 1:
+        verdict = V("more_failing_calls_than_faults", "real processes, scenario %s: %s" % (sc, kinds))
+    return {"verdict": verdict, "digest": "real-" + sc + "-" + ",".join(kinds), "shape": "real:" + sc + ":" + ",".join(kinds), "steps": len(outcomes),
+            "switches": 0, "sim_time": 0.0, "faults": {"real_worker_killed:" + sc: 1}, "probes": {"real_process_runs": 1},
+            "nontrivial": True, "extra": {"real_wall_s_x1000": int(1000 * (time.monotonic() - t0))},
+            "sample": {"real": True, "scenario": sc, "outcomes": [(o[0], round(o[2], 2)) for o in outcomes]}}
+
+
 def run_case(case):
     global W
+    if case.get("real"):
+        return run_real(case)
     from joblib import Parallel, delayed
     from joblib.externals.loky.process_executor import BrokenProcessPool, TerminatedWorkerError
     from joblib.externals.loky import reusable_executor as rex
